@@ -13,9 +13,11 @@ Open Scope list_scope.
 Lemma splice2_inhabited :
   has_authority_b qx_u = true /\ has_authority_b sx_u = true
   /\ splice_case (set_path true qx_u (B "/a b/../c")) (splice_path qx_u (B "/a b/../c")) (B "a://h:80/a b/../c?q#f") "a://h:80/c?q#f"
-  /\ forallb no_qh (B "/a b/../c") = true /\ path_arg_ok (B "/a b/../c")
+  /\ forallb no_qh (B "/a b/../c") = true /\ path_arg_ok (sp_of qx_u) (B "/a b/../c")
   /\ splice_case (set_path true sx_u (B "/x y")) (splice_path sx_u (B "/x y")) (B "http://u:p@h/x y") "http://u:p@h/x%20y"
   /\ first_ok (rev (B "/x y"))
+  /\ splice_case (set_path true sx_u [92; 120]) (splice_path sx_u [92; 120]) (B "http://u:p@h" ++ [92; 120]) "http://u:p@h/x"
+  /\ path_arg_ok (sp_of sx_u) [92; 120]
   /\ splice_case (set_path true qx_u []) (splice_path qx_u []) (B "a://h:80?q#f") "a://h:80?q#f"
   /\ splice_case (ok_of (set_host true ex_hp ex_hp ex_hd qx_u (Some (B "x.y")))) (splice_host qx_u (B "x.y")) (B "a://x.y:80/p?q#f") "a://x.y:80/p?q#f"
   /\ forallb (hostarg (sp_of qx_u)) (B "x.y") = true
@@ -27,7 +29,9 @@ Proof.
   { intros r sp ex res u' H1 H2 H3 H4. exists u'. split; [exact H1|]. split; [exact H2|]. split; [exact H3 | apply N.leb_le; exact H4]. }
   split; [vm_compute; reflexivity|]. split; [vm_compute; reflexivity|].
   split; [eapply G; [vm_compute; reflexivity | vm_compute; reflexivity | vm_compute; reflexivity | vm_compute; reflexivity]|].
-  split; [vm_compute; reflexivity|]. split; [reflexivity|].
+  split; [vm_compute; reflexivity|]. split; [vm_compute; reflexivity|].
+  split; [eapply G; [vm_compute; reflexivity | vm_compute; reflexivity | vm_compute; reflexivity | vm_compute; reflexivity]|].
+  split; [vm_compute; reflexivity|].
   split; [eapply G; [vm_compute; reflexivity | vm_compute; reflexivity | vm_compute; reflexivity | vm_compute; reflexivity]|].
   split; [vm_compute; reflexivity|].
   split; [eapply G; [vm_compute; reflexivity | vm_compute; reflexivity | vm_compute; reflexivity | vm_compute; reflexivity]|].
@@ -57,7 +61,7 @@ Proof.
     - vm_compute. reflexivity.
     - apply usv_B_small. vm_compute. reflexivity.
     - vm_compute. reflexivity.
-    - reflexivity.
+    - vm_compute. reflexivity.
     - vm_compute in E1. inversion E1; subst u1. vm_compute. discriminate. }
   destruct (set_host true ex_hp ex_hp ex_hd u1 (Some (B "x.y"))) as [[u2 s2]|] eqn:E2;
     [|vm_compute in E1; inversion E1; subst u1; vm_compute in E2; discriminate E2].
